@@ -299,7 +299,69 @@ def file_round(variant, acc, case):
     return not problems
 
 
+NEW_STYLE = [('C1', 'B1', None), ('C2', 'B1', 2), ('C2', 'B2', None), ('O1', 'B2', 0), ('X1', 'B2', 3)]
+
+
+def new_style_round(variant, acc, case):
+    """The same ligand declared in a new-style .mapping text with explicit weights (2, 0, 3 and the implicit 1)."""
+    import numpy as np
+    import vermouth
+    from vermouth.forcefield import ForceField
+    from vermouth.molecule import Block
+    from vermouth.map_input import read_mapping_file
+    from vermouth.processors.do_mapping import do_mapping
+    from vermouth.processors.average_beads import DoAverageBead
+    ff_aa, ff_cg = ForceField(name='aa'), ForceField(name='cg')
+    block_aa = Block(force_field=ff_aa, name='LIG')
+    for name in variant:
+        block_aa.add_node(name, atomname=name, resname='LIG', resid=1)
+    block_aa.add_edges_from((x, y) for x, y in BONDS if x in variant and y in variant)
+    ff_aa.blocks['LIG'] = block_aa
+    block_cg = Block(force_field=ff_cg, name='LIG')
+    block_cg.add_node('B1', atomname='B1', resname='LIG', resid=1)
+    block_cg.add_node('B2', atomname='B2', resname='LIG', resid=1)
+    block_cg.add_edge('B1', 'B2')
+    ff_cg.blocks['LIG'] = block_cg
+    lines = ['[ block ]', '[ from ]', 'aa', '[ to ]', 'cg', '[ from blocks ]', 'LIG', '[ to blocks ]', 'LIG', '[ mapping ]']
+    for atom, bead, weight in NEW_STYLE:
+        lines.append('%s %s%s' % (atom, bead, '' if weight is None else ' %d' % weight))
+    try:
+        with common.LogCapture():
+            mappings = read_mapping_file(lines, {'aa': ff_aa, 'cg': ff_cg})
+            mol = vermouth.molecule.Molecule(force_field=ff_aa)
+            for idx, name in enumerate(reversed(variant)):
+                mol.add_node(idx, atomname=name, resname='LIG', resid=1, chain='A', position=np.array(FILE_POS[name], dtype=float))
+            mkeys = {name: idx for idx, name in enumerate(reversed(variant))}
+            mol.add_edges_from((mkeys[x], mkeys[y]) for x, y in BONDS if x in mkeys and y in mkeys)
+            out = do_mapping(mol, mappings, ff_cg, attribute_keep=('chain',))
+            DoAverageBead().run_molecule(out)
+    except Exception as err:   # pylint: disable=broad-except
+        acc.violation('c09:e2e-file-exception', 'reading the new-style mapping text and mapping raised %r' % (err,), case)
+        return False
+    sums = {}
+    for atom, bead, weight in NEW_STYLE:
+        sums.setdefault(bead, []).append((Fraction(1 if weight is None else weight), atom))
+    got = {node['atomname']: node.get('position') for _, node in out.nodes(data=True)}
+    for bead, pairs in sorted(sums.items()):
+        want = wmean([(w, FILE_POS[a]) for w, a in pairs])
+        have = got.get(bead)
+        if have is None or np.any(np.isnan(have)) or max(abs(float(g) - float(w)) for g, w in zip(have, want)) > 1e-9:
+            acc.violation('c09:e2e-file-not-at-weighted-mean', 'new-style mapping text: particle %s is at %r; the weights written in the file '
+                          '(%r) put it at %r' % (bead, None if have is None else [round(float(x), 6) for x in have],
+                                                 [(str(w), a) for w, a in pairs], [float(x) for x in want]), case)
+            return False
+    return True
+
+
 def file_case(seq, acc):
+    if seq and seq[0] == 'new-style':
+        for step, variant in enumerate(seq[1:]):
+            case = {'layer': 'e2e-file', 'sequence': ['new-style'] + [list(v) for v in seq[1:]], 'step': step}
+            ok = new_style_round(variant, acc, case)
+            acc.case(nontrivial=True, outcome=('newstyle', step, tuple(variant), ok))
+            if not ok:
+                return
+        return
     for step, variant in enumerate(seq):
         case = {'layer': 'e2e-file', 'sequence': [list(v) for v in seq], 'step': step}
         ok = file_round(variant, acc, case)
@@ -438,7 +500,8 @@ def pipeline_items():
 
 MASS = {'H': 1, 'C': 12, 'N': 14, 'O': 16, 'S': 32, 'P': 31}      # the documented element masses of AttachMass
 CLI_FRAGMENTS = ['bta15-18', 'bta19-22', 'bta27-30', 'bta11-14', 'ala5']
-CLI_OPTIONS = {'default': [], 'elastic': ['-elastic'], 'martini22': ['-ff', 'martini22'], 'sep-posres': ['-sep', '-p', 'backbone']}
+CLI_OPTIONS = {'default': [], 'elastic': ['-elastic'], 'martini22': ['-ff', 'martini22'], 'sep-posres': ['-sep', '-p', 'backbone'],
+               'write-repair': ['-write-repair', 'repair.pdb'], 'write-canon-graph': ['-write-canon', 'canon.pdb', '-write-graph', 'graph.pdb']}
 
 
 def shipped_weights(to_ff, resname):
@@ -573,7 +636,9 @@ def run_layer(ctx):
     for part in common.pmap(work, [('molecule', chunk) for chunk in common.chunked(items, max(1, len(items) // 48))]):
         acc += part
     ctx.layer('declaration-to-position', acc)
+    full = [v for v in BLOCK_VARIANTS if len(v) == 4]
     seqs = [(v,) for v in BLOCK_VARIANTS] + list(itertools.permutations(BLOCK_VARIANTS, 2))
+    seqs += [('new-style', v) for v in full] + [('new-style', a, b) for a, b in itertools.permutations(full, 2)]
     if not ctx.quick:
         seqs += list(itertools.permutations(BLOCK_VARIANTS, 3))
     acc = Acc()
@@ -602,7 +667,7 @@ def replay(case):
         pipeline_case((case['resname'], tuple(case['present']) if isinstance(case['present'], list) else case['present'],
                        case['partial_first']), acc)
     elif case['layer'] == 'e2e-file':
-        file_case([tuple(v) for v in case['sequence']], acc)
+        file_case([v if isinstance(v, str) else tuple(v) for v in case['sequence']], acc)
     else:
         molecule_case((case['nres'], tuple(tuple(d) for d in case['decorations']), tuple(case['block_w']), tuple(case['link_w']),
                        case['order'], tuple(case['motion'])), acc)
